@@ -288,5 +288,8 @@ def extra_contracts():
     / __deepcopy__ and the C05 contract of StateAttribute.validated, borrowed."""
     from .C02 import variant
     from .C04 import Copy, DeepCopy
-    from .C05 import Validated
-    return [variant(Copy, "C20", ("P5:a-copy",)), variant(DeepCopy, "C20", ("P5:a-deep-copy", "P5:each-attribute", "P5:the-original")), variant(Validated, "C20", ("",))]
+    from .C05 import Validated, SequenceV, TupleVarV, TupleFixedV, SetV, MappingV, UnionV, NoneV, TypeV, LiteralV
+    # ... and a state that is *given* MISSING holds MISSING: no validator of another annotation accepts it or turns it into one of
+    # its own values (a falsy MISSING is not an empty container): the accept / reject clauses of C05's validators
+    vals = [variant(c, "C20", ("",)) for c in (SequenceV, TupleVarV, TupleFixedV, SetV, MappingV, UnionV, NoneV, TypeV, LiteralV)]
+    return vals + [variant(Copy, "C20", ("P5:a-copy",)), variant(DeepCopy, "C20", ("P5:a-deep-copy", "P5:each-attribute", "P5:the-original")), variant(Validated, "C20", ("",))]
